@@ -353,6 +353,10 @@ static void gapCase(Rng& r, int kind) {
     case 6: B = B.Mirror(vec3(1, 0.3, 0.2)).Translate(dir * (1.4 + 0.4 * unit(r))); L = 1.2; break;
     default: B = B.Translate(dir * 1.5); L = 0.0; break;
   }
+  // the same configuration at another length scale (every tolerance of the routines under test must be relative)
+  static const double kScales[] = {1, 1, 1, 1e-2, 1e-3, 3e-4, 1e-4, 1e3};
+  const double gs = kScales[r.below(8)];
+  if (gs != 1) { A = A.Scale(vec3(gs)); B = B.Scale(vec3(gs)); L *= gs; d += " x" + fmt("%g", gs); }
   auto IA = implOf(A), IB = implOf(B);
   const std::string tag = nextId("gap") + " " + kn[kind] + " " + d + " nt=" + std::to_string(IA->NumTri()) + "x" + std::to_string(IB->NumTri());
   if (!dumpable(*IA) || !dumpable(*IB)) { ST["undumpable"]++; return; }
@@ -389,6 +393,9 @@ static void triTriCase(Rng& r) {
     case 8: { for (int i = 0; i < 3; i++) { p[i] = rv(1); q[i] = rv(1) + vec3(0, 2, 0); } int w = (int)r.below(3); if (w == 0) p[1] = p[0]; else if (w == 1) { p[1] = p[0]; p[2] = p[0]; } else q[2] = q[0] + (q[1] - q[0]) * 0.5; break; }
     default: { p = {vec3(-2, -2, 0), vec3(2, -2, 0), vec3(0, 3, 0)}; vec3 c(sym(r, 0.4), sym(r, 0.4), 0.3 + unit(r)); q = {c, c + vec3(0.1 * unit(r), 0.1, 0.2 * unit(r) + 0.05), c + vec3(-0.1, 0.1 * unit(r), 0.3)}; break; }
   }
+  static const double kScales[] = {1, 1, 1, 1e-2, 1e-3, 3e-4, 1e-4, 1e3};
+  const double ts = kScales[r.below(8)];
+  if (ts != 1) for (int i = 0; i < 3; i++) { p[i] *= ts; q[i] *= ts; }
   const double dd = DistanceTriangleTriangleSquared(p, q);
   std::string req = "measure tritri"; for (auto& v : p) put3(req, v); for (auto& v : q) put3(req, v);
   P3 X[3] = {toP(p[0]), toP(p[1]), toP(p[2])}, Y[3] = {toP(q[0]), toP(q[1]), toP(q[2])}; const ld want = triTriDistOracle(X, Y);
@@ -396,16 +403,16 @@ static void triTriCase(Rng& r) {
   // general position only: when the triangles meet, the oracle classifies the pair only if some edge of one PROPERLY crosses the
   // other (both ends >= delta off its plane on opposite sides, crossing point >= delta inside it).  Grazing contact (a vertex or an
   // edge exactly in the other's plane) is an exact tie of the separating-slab tests of the PhysX routine, where rounding decides.
-  auto properCross = [&](const P3 S[3], const P3 T[3]) { const ld delta = 1e-6L; P3 n = crossl(T[1] - T[0], T[2] - T[0]); const ld nl = norml(n); if (nl <= 0) return false;
+  auto properCross = [&](const P3 S[3], const P3 T[3]) { const ld delta = 1e-6L * ts; P3 n = crossl(T[1] - T[0], T[2] - T[0]); const ld nl = norml(n); if (nl <= 0) return false;
     for (int i = 0; i < 3; i++) { P3 a = S[i], b = S[(i + 1) % 3]; ld ha = dotl(a - T[0], n) / nl, hb = dotl(b - T[0], n) / nl; if (!((ha > delta && hb < -delta) || (ha < -delta && hb > delta))) continue;
       P3 x = a + (b - a) * (ha / (ha - hb)); bool in = true; for (int k = 0; k < 3; k++) { P3 e = T[(k + 1) % 3] - T[k]; ld el = norml(e); if (el <= 0 || dotl(crossl(e, x - T[k]), n) / (nl * el) < delta) in = false; } if (in) return true; }
     return false; };
-  if (want == 0 && !properCross(X, Y) && !properCross(Y, X)) { ST["tritri_grazing_not_classified"]++; if (fabsl(sqrtl((ld)dd)) > 1e-7L) ST["tritri_grazing_reported_apart(info)"]++; }
+  if (want == 0 && !properCross(X, Y) && !properCross(Y, X)) { ST["tritri_grazing_not_classified"]++; if (fabsl(sqrtl((ld)dd)) > 1e-7L * ts) ST["tritri_grazing_reported_apart(info)"]++; }
   else {
-    if (fabsl(sqrtl((ld)dd) - want) > 1e-7L) fail = fmt("DistanceTriangleTriangleSquared = %.17g (distance %.17Lg) but the all-features distance is %.17Lg", dd, sqrtl((ld)dd), want);
+    if (fabsl(sqrtl((ld)dd) - want) > 1e-7L * ts) fail = fmt("DistanceTriangleTriangleSquared = %.17g (distance %.17Lg) but the all-features distance is %.17Lg (scale %g)", dd, sqrtl((ld)dd), want, ts);
     ST[std::string("tritri_") + (want == 0 ? "crossing" : "apart")]++;
   }
-  hz::emit(nextId("tritri") + " " + kn[kind], req, hexd(dd), fail.empty(), fail);
+  hz::emit(nextId("tritri") + " " + kn[kind] + (ts != 1 ? " x" + fmt("%g", ts) : std::string()), req, hexd(dd), fail.empty(), fail);
 }
 
 // ---------------------------------------------------------------- degenerate arguments
